@@ -1,1 +1,350 @@
--- C18: property theorems (to be filled in)
+/-
+C18 — property theorems: constants in a query denote the same value in the generated code.
+
+THE PROPERTY (full strength), for every constant `c` a query may contain:
+
+    ∀ c, OutcomeOk c (renderConst c).toOption                                  -- (★)
+
+i.e. what `visit_Constant` emits is a C++ literal of the same value and kind whose recorded type
+can hold it, and it refuses exactly the constants that have no such literal; and every string that
+is a NAME (bank, tree, branch) is found again, character for character, by the C++ lexer at the
+place where it was put.
+
+(★) is FALSE of the code as it stands (`const_ok_counterexample`: the int 3000000000 is accepted
+and typed `int`), so it is proved with the explicit decidable hypothesis `InInt32` for ints
+(`const_ok_partial`); per kind the results are as strong as the code allows:
+
+* strings — `str_roundtrip`: ALL strings, no hypothesis (C++17 and later, GNU dialects);
+  under ISO C++ before 17 translation phase 1 replaces trigraphs: `str_roundtrip_trigraphs_partial`
+  with the exact hypothesis "the string contains no trigraph", `str_trigraphs_counterexample`;
+  what a `const char*` parameter receives: `cstr_roundtrip_partial` (no NUL), counterexample;
+* ints — `int_roundtrip_partial`, `int_value_partial`, `int_counterexample`, `int_huge_counterexample`;
+* floats — `float_roundtrip` over the whole grammar of `repr(float)`; `nonfinite_rejected`;
+* bools, unsupported kinds — `bool_roundtrip`, `unsupported_rejected`;
+* names — `bank_roundtrip` (escaped: all strings), `names_verbatim_partial` over the booking/fill
+  lines regenerated from the three backends (names are copied verbatim there: hypothesis
+  `PlainName`), `names_counterexample`.
+
+Trusted, not proved here: CPython's `repr(float)` (a float is given to the model by the text
+`repr` prints; that the text rounds back to the float is checked by exact arithmetic on every
+sampled float by the harness, `roundsTo`), the C++ lexing rules as transcribed in `Model.lean`
+(validated against g++ by the harness), UTF-8 as both Python's output and g++'s input encoding.
+-/
+import FaxVerif.C18.Proofs
+namespace FaxVerif.C18
+
+/-! ## the tables regenerated from the source -/
+
+/-- The per-character table of `as_cpp_string_literal`, as it is in the source now, is sound for
+the C++ lexer: each image is the character itself (never for `"`, `\`, LF, CR) or a backslash and
+the letter of the simple escape sequence that denotes it. Re-checked on every run. -/
+theorem escape_table_ok : TableOk pyTable := by decide
+
+/-- Every single-character image of `as_cpp_string_literal` is `"` + text + `"` (so the table
+above is all there is to the per-character behaviour). Re-checked on every run. -/
+theorem escape_shape_ok : Gen.escapeShape = "ok" := by decide
+
+/-- In every booking and fill line of the three backends, as emitted now, the tree / branch name
+stands directly between a quote ending the preceding text and a quote starting the following
+text (or is escaped), and nothing was unrecognised by the translator. Re-checked on every run. -/
+theorem book_lines_ok :
+    ∀ b ∈ bookTable ++ fillTable, ∀ segs ∈ b.2, BookLineOk segs = true := by decide
+
+/-! ## strings -/
+
+/-- **Strings pass through character for character.** For EVERY string `s` (quotes, backslashes,
+newlines, control characters, non-ASCII, `?` … no hypothesis), the text `as_cpp_string_literal`
+produces is one C++ string literal (C++17 lexing: no trigraphs) and it denotes exactly `s`. -/
+theorem str_roundtrip (s : String) : cppString (renderStr s) = some s := by
+  simp [cppString, renderStr, String.toList_ofList, cppStringL_render escape_table_ok]
+
+/-- the same, as the Spec predicate on the model's output (type recorded: `string`) -/
+theorem str_const_ok (s : Str) : ConstOk (.str s) (renderStrL pyTable s) .string :=
+  ⟨cppStringL_render escape_table_ok s, rfl⟩
+
+/-- The string literal is found again in any context: whatever text follows the rendered
+literal, the lexer stops exactly at its closing quote and returns `s`. -/
+theorem str_in_context (s tail : Str) :
+    cppStringLit (renderStrL pyTable s ++ tail) = some (s, tail) :=
+  cppStringLit_render escape_table_ok s tail
+
+/-- Rendering never introduces a trigraph: the rendered literal contains one only if `s` does. -/
+theorem render_trigraph_free (s : Str) (h : hasTrigraph s = false) :
+    hasTrigraph (renderStrL pyTable s) = false :=
+  hasTrigraph_render escape_table_ok s h
+
+/-- Full statement `∀ s, cppStringTri (renderStr s) = some s` is false (next theorem).
+PARTIAL: under a compiler that performs trigraph replacement (ISO `-std=c++98/11/14`, `-trigraphs`)
+the round trip holds for every string that contains no trigraph `??=` `??/` `??'` `??(` `??)`
+`??!` `??<` `??>` `??-`; the hypothesis is exact for the table as it is (a `?` is copied
+verbatim). Missing: `?` is not escaped as `\?`. -/
+theorem str_roundtrip_trigraphs_partial (s : String) (h : hasTrigraph s.toList = false) :
+    cppStringTri (renderStr s) = some s := by
+  simp [cppStringTri, renderStr, String.toList_ofList, cppStringTriL_render escape_table_ok _ h]
+
+/-- `a??/` is emitted as `"a??/"`, which phase 1 turns into `"a\"` — an unterminated literal;
+`a??/b` becomes `"a\b"`: the two characters `a`, backspace. -/
+theorem str_trigraphs_counterexample :
+    cppStringTri (renderStr "a??/") = none ∧
+    cppStringTri (renderStr "a??/b") = some (String.ofList ['a', Char.ofNat 8]) ∧
+    hasTrigraph "a??/".toList = true := by decide
+
+/-- PARTIAL (what a `const char*` / `std::string` parameter receives, e.g. the bank name in
+`retrieve(result, "…")`): the string itself, provided it contains no NUL. -/
+theorem cstr_roundtrip_partial (s : Str) (h : NoNul s) :
+    (cppStringL (renderStrL pyTable s)).map cstrOf = some s := by
+  rw [cppStringL_render escape_table_ok]
+  simp only [Option.map_some, cstrOf, Option.some.injEq]
+  have key : ∀ l : Str, (l.all fun c => decide (c ≠ Char.ofNat 0)) = true →
+      l.takeWhile (fun c => decide (c ≠ Char.ofNat 0)) = l := by
+    intro l
+    induction l with
+    | nil => intro _; rfl
+    | cons c cs ih =>
+      intro h
+      simp only [List.all_cons, Bool.and_eq_true] at h
+      rw [List.takeWhile_cons, if_pos h.1, ih h.2]
+  exact key s h
+
+/-- `a\0b` is accepted; the literal denotes all three characters but the callee sees `a`. -/
+theorem cstr_nul_counterexample :
+    (cppStringL (renderStrL pyTable ['a', Char.ofNat 0, 'b'])).map cstrOf = some ['a'] := by decide
+
+/-! ## booleans, unsupported kinds -/
+
+/-- `True` / `False` are emitted as the C++ literals `true` / `false`, typed `bool`. -/
+theorem bool_roundtrip (b : Bool) :
+    ∃ text, renderConst (.bool b) = .ok (text, .bool) ∧ ConstOk (.bool b) text .bool := by
+  cases b
+  · exact ⟨"false".toList, rfl, by decide⟩
+  · exact ⟨"true".toList, rfl, by decide⟩
+
+/-- `None`, bytes, complex, Ellipsis, tuples …: refused, nothing is emitted. -/
+theorem unsupported_rejected (t : String) :
+    renderConst (.other t) = .error (.unsupported t) ∧ OutcomeOk (.other t) (renderConst (.other t)).toOption := by
+  refine ⟨rfl, ?_⟩
+  simp [renderConst, Except.toOption, OutcomeOk, Representable]
+
+/-! ## integers -/
+
+/-- Full statement `∀ n, cppInt (str n) = some (n, int)` is false (`int_counterexample`).
+PARTIAL: for `-2^31 < n < 2^31` Python's `str(n)` is a C++ integer expression of value `n` whose
+own type is `int` — the type the translator records. (For `n = -2^31` the value is right and the
+expression's type is `long`, see `int_const_ok_partial`.) -/
+theorem int_roundtrip_partial (n : Int) (h1 : -2147483648 < n) (h2 : n < 2147483648) :
+    cppInt (pyIntStr n) = some (n, .int) := by
+  simp only [cppInt, pyIntStr, String.toList_ofList]
+  cases n with
+  | ofNat m =>
+    have hm : m < 2 ^ 31 := by
+      have : (m : Int) < 2147483648 := h2
+      omega
+    rw [cppIntL_renderInt_ofNat, intLitType_dec]
+    simp [hm]
+  | negSucc m =>
+    have hm : m + 1 < 2 ^ 31 := by
+      have : -2147483648 < Int.negSucc m := h1
+      omega
+    rw [cppIntL_renderInt_negSucc, intLitType_dec]
+    simp [hm]
+
+/-- PARTIAL, value level: every `n` with `-2^63 < n < 2^63` is emitted as a C++ integer expression
+of exactly that value (typed `int` or `long` by the language). Outside, `str(n)` is not an integer
+literal any C++ type can hold. -/
+theorem int_value_partial (n : Int) (h1 : -9223372036854775808 < n) (h2 : n < 9223372036854775808) :
+    (cppInt (pyIntStr n)).map (·.1) = some n := by
+  simp only [cppInt, pyIntStr, String.toList_ofList]
+  cases n with
+  | ofNat m =>
+    have hm : m < 2 ^ 63 := by
+      have : (m : Int) < 9223372036854775808 := h2
+      omega
+    rw [cppIntL_renderInt_ofNat, intLitType_dec]
+    by_cases h31 : m < 2 ^ 31 <;> simp [h31, hm]
+  | negSucc m =>
+    have hm : m + 1 < 2 ^ 63 := by
+      have : -9223372036854775808 < Int.negSucc m := h1
+      omega
+    rw [cppIntL_renderInt_negSucc, intLitType_dec]
+    by_cases h31 : m + 1 < 2 ^ 31 <;> simp [h31, hm]
+
+/-- PARTIAL, as the Spec predicate: for every `n` of the 32-bit range (bounds included) the
+emitted text denotes `n` and the recorded type `int` can hold it. -/
+theorem int_const_ok_partial (n : Int) (h : InInt32 n) : ConstOk (.int n) (renderInt n) .int := by
+  obtain ⟨h1, h2⟩ := h
+  have hfit : fitsTy .int n = true := by simp [fitsTy, InInt32, h1, h2]
+  have hfit64 : fitsTy .long n = true := by
+    simp only [fitsTy, InInt64]
+    exact decide_eq_true ⟨by omega, by omega⟩
+  cases n with
+  | ofNat m =>
+    have hm : m < 2 ^ 31 := by
+      have : (m : Int) < 2147483648 := h2
+      omega
+    have hl : cppIntL (renderInt (Int.ofNat m)) = some (Int.ofNat m, .int) := by
+      rw [cppIntL_renderInt_ofNat, intLitType_dec, if_pos hm]; rfl
+    unfold ConstOk
+    simp only [hl]
+    exact ⟨by first | trivial | rfl, hfit, hfit⟩
+  | negSucc m =>
+    have hm : m + 1 ≤ 2 ^ 31 := by
+      have : -2147483648 ≤ Int.negSucc m := h1
+      omega
+    by_cases h31 : m + 1 < 2 ^ 31
+    · have hl : cppIntL (renderInt (Int.negSucc m)) = some (Int.negSucc m, .int) := by
+        rw [cppIntL_renderInt_negSucc, intLitType_dec, if_pos h31]; rfl
+      unfold ConstOk
+      simp only [hl]
+      exact ⟨by first | trivial | rfl, hfit, hfit⟩
+    · have h63 : m + 1 < 2 ^ 63 := by omega
+      have hl : cppIntL (renderInt (Int.negSucc m)) = some (Int.negSucc m, .long) := by
+        rw [cppIntL_renderInt_negSucc, intLitType_dec, if_neg h31, if_pos h63]; rfl
+      unfold ConstOk
+      simp only [hl]
+      exact ⟨by first | trivial | rfl, hfit64, hfit⟩
+
+/-- 3000000000 is accepted and emitted as `3000000000`: a literal of type `long` in C++, but the
+translator records `int` for it — the column is declared `int` and the value is truncated.
+The property is false of the code here. -/
+theorem int_counterexample :
+    (renderConst (.int 3000000000)).toOption = some ("3000000000".toList, .int) ∧
+    cppInt "3000000000" = some (3000000000, .long) ∧
+    ¬ OutcomeOk (.int 3000000000) (renderConst (.int 3000000000)).toOption := by decide
+
+/-- 2^64 is accepted and emitted as `18446744073709551616`, which no C++ integer type can hold
+(it is not refused although it has no literal). -/
+theorem int_huge_counterexample :
+    (renderConst (.int 18446744073709551616)).toOption = some ("18446744073709551616".toList, .int) ∧
+    cppInt "18446744073709551616" = none ∧ ¬ Representable (.int 18446744073709551616) ∧
+    ¬ OutcomeOk (.int 18446744073709551616) (renderConst (.int 18446744073709551616)).toOption := by
+  decide
+
+/-! ## floats -/
+
+/-- **Every text of the grammar of `repr(float)`** — optional `-`, digits, optional `.digits`,
+optional `e±digits`, at least one of the last two — **lexes as one C++ floating literal of type
+`double`** (never as an integer, never `float`/`long double`) **whose exact decimal value is the
+value of the text**: mantissa digits and decimal exponent agree. Magnitude is unbounded: 1e+308,
+5e-324, 17 significant digits, `-0.0` (the sign of zero is kept). CPython's `repr` itself —
+that this text rounds back to the float the query held — is trusted. -/
+theorem float_roundtrip (neg : Bool) (ip : List (Fin 10)) (fp : Option (List (Fin 10)))
+    (ex : Option (Bool × List (Fin 10))) (wf : WFRepr (.finite neg ip fp ex)) :
+    cppFloat (String.ofList (renderFloat neg ip fp ex)) = some (floatValue neg ip fp ex, .double) := by
+  simp only [cppFloat, String.toList_ofList]
+  exact cppFloatL_render neg ip fp ex wf
+
+/-- the same, as the Spec predicate on the model's output -/
+theorem float_const_ok (neg : Bool) (ip : List (Fin 10)) (fp : Option (List (Fin 10)))
+    (ex : Option (Bool × List (Fin 10))) (wf : WFRepr (.finite neg ip fp ex)) :
+    ConstOk (.float (.finite neg ip fp ex)) (renderFloat neg ip fp ex) .double := by
+  unfold ConstOk
+  simp only [cppFloatL_render neg ip fp ex wf]
+  exact ⟨Dec.same_refl _, trivial, trivial⟩
+
+/-- `inf`, `-inf` and `nan` have no C++ literal: they are refused (since the fix; before it the
+bare words `inf` / `nan` were emitted). -/
+theorem nonfinite_rejected (r : FloatRepr) (h : r = .nan ∨ ∃ b, r = .inf b) :
+    renderConst (.float r) = .error .nonFinite ∧ OutcomeOk (.float r) (renderConst (.float r)).toOption := by
+  rcases h with rfl | ⟨b, rfl⟩ <;>
+    exact ⟨rfl, by simp [renderConst, Except.toOption, OutcomeOk, Representable]⟩
+
+/-! ## a numeric constant as an operand -/
+
+/-- A non-negative integer constant never fuses with the operator before it. -/
+theorem nonneg_not_glued (n : Nat) (prev : Char) : glued prev (renderInt (Int.ofNat n)) = false := by
+  obtain ⟨k, ds, hk, he⟩ := renderNat_head n
+  have h1 := digitChar_ne_minus hk
+  have h2 : digitChar k ≠ '+' := by
+    intro h
+    have := congrArg Char.toNat h
+    rw [digitChar_toNat hk] at this
+    have h0 : ('+' : Char).toNat = 43 := by decide
+    omega
+  simp [renderInt, he, glued, h1, h2]
+
+/-- A string constant never fuses with the operator before it. -/
+theorem str_not_glued (s : Str) (prev : Char) : glued prev (renderStrL pyTable s) = false := by
+  simp [renderStrL, glued]
+
+/-- `x - (-5)` with the constant -5 as ONE node of the query: the operand is emitted as `-5`
+directly after the operator, `(x--5)`, which C++ reads as a decrement. -/
+theorem sub_negative_counterexample :
+    glued '-' (renderInt (-5)) = true ∧ constAfter '-' (.int (-5)) (renderInt (-5) ++ [')']) = none ∧
+    constAt (.int (-5)) (renderInt (-5) ++ [')']) = some [')'] := by decide
+
+/-! ## every kind together -/
+
+/-- Full statement (★) `∀ c, OutcomeOk c (renderConst c).toOption` is false
+(`const_ok_counterexample`). PARTIAL: it holds for every constant that is not an int outside the
+32-bit range (defect exclusion, listed finding) — floats being given by a well-formed `repr` text
+(an assumption about the input, not an exclusion). -/
+theorem const_ok_partial (c : PyConst) (hint : ∀ n, c = .int n → InInt32 n)
+    (hfl : ∀ r, c = .float r → WFRepr r) : OutcomeOk c (renderConst c).toOption := by
+  cases c with
+  | str s => exact str_const_ok s
+  | int n => exact int_const_ok_partial n (hint n rfl)
+  | float r =>
+    cases r with
+    | finite neg ip fp ex => exact float_const_ok neg ip fp ex (hfl _ rfl)
+    | inf b => exact (nonfinite_rejected (.inf b) (Or.inr ⟨b, rfl⟩)).2
+    | nan => exact (nonfinite_rejected .nan (Or.inl rfl)).2
+  | bool b =>
+    obtain ⟨text, h1, h2⟩ := bool_roundtrip b
+    rw [h1]; exact h2
+  | other t => exact (unsupported_rejected t).2
+
+theorem const_ok_counterexample : ∃ c, ¬ OutcomeOk c (renderConst c).toOption :=
+  ⟨.int 3000000000, int_counterexample.2.2⟩
+
+/-! ## names: where strings land -/
+
+/-- **Bank names.** The collection-retrieval line is the backend's text with the whole word
+`collection_name` replaced by the rendered literal; whatever stands before and after it, lexing
+from the place of the substitution returns exactly the bank name and the untouched rest —
+for ALL bank names. -/
+theorem bank_roundtrip (pre suf bank : Str) :
+    cppStringLit ((bankLine pyTable pre suf bank).drop pre.length) = some (bank, suf) :=
+  bankLine_lit escape_table_ok pre suf bank
+
+/-- Full statement (for all names) is false: names are copied between quotes without escaping
+(`names_counterexample`). PARTIAL: in every booking / fill line of the three backends, as
+regenerated from the source, for every tree name, branch name and leaf variable, the string
+literal at the name's place denotes exactly the name — provided a verbatim name is `PlainName`
+(contains no `"`, `\`, LF, CR; the hypothesis is exact). Escaped segments need no hypothesis. -/
+theorem names_verbatim_partial (b : String × List (List Seg)) (hb : b ∈ bookTable ++ fillTable)
+    (segs : List Seg) (hs : segs ∈ b.2) (tree col var : Str) (off : Nat) (k : NameKind) (esc : Bool)
+    (hslot : nameSlot segs = some (off, k, esc))
+    (hn : esc = false → PlainName (pickName k tree col)) :
+    nameAt off (renderSegs pyTable tree col var segs) = some (pickName k tree col) :=
+  nameAt_bookLine escape_table_ok segs (book_lines_ok b hb segs hs) tree col var off k esc hslot hn
+
+/-- Tree name `t"r` on the ATLAS booking line `ANA_CHECK (book (TTree ("t"r", …)))`: the literal at
+the name's place denotes `t`, and the line no longer lexes. -/
+theorem names_counterexample :
+    ∃ segs ∈ (bookTable.lookup "atlas").getD [],
+      nameSlot segs = some (24, .tree, false) ∧
+      nameAt 24 (renderSegs pyTable "t\"r".toList [] [] segs) = some ['t'] ∧
+      ¬ PlainName "t\"r".toList := by
+  refine ⟨_, List.mem_cons_self, ?_⟩
+  decide
+
+/-! ## non-vacuity -/
+
+example : TableOk pyTable ∧ pyTable.length = 5 := by decide
+example : cppString (renderStr "a\"b\\c\nd\re\tf?'ü") = some "a\"b\\c\nd\re\tf?'ü" := str_roundtrip _
+example : renderStr "a\"b" = "\"a\\\"b\"" := by decide
+example : hasTrigraph "what?? no!".toList = false ∧ hasTrigraph "a??/".toList = true := by decide
+example : InInt32 (-2147483648) ∧ InInt32 2147483647 ∧ ¬ InInt32 2147483648 := by decide
+example : cppInt (pyIntStr (-2147483648)) = some (-2147483648, .long) := by decide
+example : pyIntStr (-1234567890) = "-1234567890" := by decide
+-- 1.7976931348623157e+308, 5e-324, -0.0, 100.0 are well-formed repr texts
+example : WFRepr (.finite false [1] (some [7,9,7,6,9,3,1,3,4,8,6,2,3,1,5,7]) (some (false, [3,0,8]))) := by decide
+example : WFRepr (.finite false [5] none (some (true, [3,2,4]))) ∧ WFRepr (.finite true [0] (some [0]) none) := by decide
+example : String.ofList (renderFloat true [1] (some [5]) (some (true, [0,7]))) = "-1.5e-07" := by decide
+example : cppFloat "-1.5e-07" = some ({ neg := true, mant := 15, exp := -8 }, .double) := by decide
+example : cppFloat "100" = none ∧ cppInt "1e5" = none := by decide
+example : PlainName "AntiKt4EMTopoJets".toList ∧ PlainName "jet pt [GeV]".toList := by decide
+example : (bookTable ++ fillTable).length = 6 := by decide
+example : nameAt 24 (renderSegs pyTable "tr".toList [] [] ((bookTable.lookup "atlas").getD []).head!) = some "tr".toList := by decide
+
+end FaxVerif.C18
